@@ -205,6 +205,10 @@ def _chunk(args):
     out = []
     try:
         for idx, sc in items:
+            if d.HANGS[0] >= 8:
+                # the daemon hangs systematically (8 unanswered waits in this process, each already reported): stop paying for it
+                out.append((idx, {"violations": [], "case": None, "dist": [], "skipped": True}))
+                continue
             try:
                 r = p.play(sc, want_case=want_case and info is not None)
             except Exception as x:     # infrastructure trouble: one retry on a fresh daemon
@@ -260,6 +264,9 @@ def collect(ctx, res, scenarios, results, model_ok):
             continue
         if r.get("inconclusive"):
             res.count("inconclusive (machine too slow for COMMTIMEOUT)")
+            continue
+        if r.get("skipped"):
+            res.count("skipped after 8 hangs in one harness process")
             continue
         case = r["case"]
         nfaults = sum(len(e["faults"]) for e in case["events"]) if case else 0
@@ -317,7 +324,7 @@ def search(ctx, broken):
     scenarios += make_scenarios(ctx, ctx.n(600, 1400))
     results = execute(ctx, scenarios, None, want_case=False)
     for sc, r in zip(scenarios, results):
-        if r is None or r.get("error") or r.get("inconclusive"):
+        if r is None or r.get("error") or r.get("inconclusive") or r.get("skipped"):
             continue
         res.seen(sc)
         for sig, what in r["violations"]:
